@@ -399,6 +399,13 @@ class Engine:
             try:
                 results.append(fn())
                 self.paths += 1
+                if crash_clause is not None:
+                    # the path ran to completion for every input satisfying its path condition
+                    st = self.clauses.setdefault(crash_clause, dict(obligations=0, discharged=0, violated=0, unknown=0))
+                    st["obligations"] += 1
+                    st["discharged"] += 1
+                    self.obligations += 1
+                    self.discharged += 1
             except Abort:
                 self.aborted += 1
             except (Unsupported, Inconclusive):
